@@ -1475,16 +1475,17 @@ def _start_flow(state: State, flow_state: FlowState, event_arguments: dict) -> N
         # if context:
         #     flow_state.context = context
         # Resolve positional flow parameters to their actual name in the flow
-        last_idx = -1
-        for idx, arg in enumerate(flow_state.arguments):
+        # (flow_state.arguments also holds the positional '$<idx>' keys, so the declared
+        # parameters are taken from the flow configuration)
+        parameters = state.flow_configs[flow_state.flow_id].parameters
+        for idx, param in enumerate(parameters):
             pos_arg = f"${idx}"
-            last_idx = idx
             if pos_arg in event_arguments:
-                flow_state.context[arg] = event_arguments[pos_arg]
+                flow_state.context[param.name] = event_arguments[pos_arg]
             else:
                 break
         # Check if more parameters were provided than the flow takes
-        if f"${last_idx+1}" in event_arguments:
+        if f"${len(parameters)}" in event_arguments:
             raise ColangRuntimeError(
                 f"To many parameters provided in start of flow '{flow_state.flow_id}'"
             )
